@@ -229,4 +229,33 @@ theorem deneb_activation_limit_eq (cfg : Config) (vals : List Validator) (cur : 
     min cfg.MAX_PER_EPOCH_ACTIVATION_CHURN_LIMIT (Impl.computeRegistryProcessData cfg vals cur).churnLimit =
       min cfg.MAX_PER_EPOCH_ACTIVATION_CHURN_LIMIT (churn_limit_of cfg vals cur) := rfl
 
+/-! ## The `FlatValidator` snapshot -/
+
+/-- `flat_snapshot_sound` (effective balances): `process_registry_updates` — both of its loops, for every
+registry — leaves every validator's `effective_balance` (and `slashed`) untouched, so the snapshot taken at the
+start of `ProcessEpoch` still holds the values `ProcessEffectiveBalanceUpdates` should read … -/
+theorem flat_snapshot_sound (cfg : Config) (cur fin limit : Nat) (vals : List Validator) :
+    (registry_activations_pure cfg cur fin limit (registry_eligibility_and_ejections_pure cfg cur vals)).map
+        (fun v => (v.effective_balance, v.slashed)) = vals.map (fun v => (v.effective_balance, v.slashed)) := by
+  rw [Lemmas.registry_activations_map_same _ cfg cur fin limit _ (fun _ _ => rfl)]
+  exact Lemmas.registry_first_loop_map_same _ cfg cur vals (fun _ _ _ => rfl) (fun _ _ => rfl)
+
+/-- … and therefore the hysteresis update that reads the START-of-epoch snapshot equals the spec's update of the
+registry as it is AFTER the registry update (whatever the balances are by then). -/
+theorem effectiveBalance_snapshot_eq (cfg : Config) (cur fin limit : Nat) (vals : List Validator) (balances : List Nat)
+    (hlen : vals.length ≤ balances.length) :
+    Impl.processEffectiveBalanceUpdates cfg vals
+        (registry_activations_pure cfg cur fin limit (registry_eligibility_and_ejections_pure cfg cur vals)) balances =
+      process_effective_balance_updates_pure cfg
+        (registry_activations_pure cfg cur fin limit (registry_eligibility_and_ejections_pure cfg cur vals)) balances := by
+  have h := flat_snapshot_sound cfg cur fin limit vals
+  have h1 : (registry_activations_pure cfg cur fin limit (registry_eligibility_and_ejections_pure cfg cur vals)).map
+      (·.effective_balance) = vals.map (·.effective_balance) := by
+    have := congrArg (List.map Prod.fst) h
+    simpa [List.map_map, Function.comp_def] using this
+  apply effectiveBalance_eq cfg vals _ balances h1.symm
+  have := congrArg List.length h1
+  simp only [List.length_map] at this
+  omega
+
 end Zrnt.Proofs.C02
